@@ -621,9 +621,11 @@ def run(ctx: Ctx):
         "ring counters do not overflow 2^64 (needs 2^64 pushes; tryPop's raw `tail >= head` test is not overflow-safe - recorded as an observation; the UInt64 model reproduces the code's behaviour there and is lockstep-checked in category ring-wrap64)",
         "destruction: ~BlockingQueue() is close(); C++ lifetime rules require that no thread is still inside a member function",
     ]
-    return ctx.finish(level="proof", rule="a case = one self-contained op list on a fresh ring / blocking queue, or one multi-threaded program run under one DetSched schedule "
-                      "(replayed through the Lean monitor model); distinct = distinct op lists resp. distinct (program, schedule) pairs; non-trivial = at least one "
-                      "successful put and one take (sequential), resp. at least one context switch between two threads inside a call (schedules)")
+    return ctx.finish(level="proof", rule="a case = one self-contained op list on a fresh ring / blocking queue (lockstep with the model), or one multi-threaded program run under one "
+                      "DetSched schedule (random schedules are replayed step by step through the Lean monitor model; enumerated schedules of the small `explore` "
+                      "programs are judged by the implementation-only monitors), or one TSan soak configuration; distinct = distinct op lists resp. distinct "
+                      "(program, schedule) pairs (an explore program counts once as distinct, its schedules count as evaluations); non-trivial = at least one "
+                      "successful put and one take (sequential), resp. at least two context switches (schedules)")
 
 
 EXPLORE = [  # (maxSize, programs, exhaustive in quick?)  - every program terminates on a correct queue under every schedule
@@ -638,7 +640,7 @@ def run_explore(ctx, hb, quick, dist):
     the alternatives of every decision; the harness walks the whole tree and judges every leaf with the implementation-only monitors."""
     lines = []
     for cap, progs, small in EXPLORE:
-        budget = (3000 if small else 400) if quick else 20000
+        budget = (3000 if small else 400) if quick else 6000
         lines.append("bq explore %d %s %d" % (cap, progs, budget))
     out, rc, err = ctx.run_lines([hb], lines, timeout=3000)
     total = 0
